@@ -248,7 +248,7 @@ def case_batched_blocks(T, n, max_iters, variant=0):
 
 def cases(tier, seed):
     out = []
-    sizes = (2, 3) if tier == "quick" else (2, 3, 4)
+    sizes = (2, 3) if tier == "quick" else (2, 3, 4, 5)
     for n in sizes:
         for variant in (0, 1):
             for m in sorted({1, n - 1, n, n + 1, n + 2} - {0}):
